@@ -168,7 +168,12 @@ func runC18(w *W) {
 				}
 				for _, p := range ps {
 					fd("ec:pillar", p.gzs, js(p.wuxing, p.nayin, p.hide, p.xun, p.xunkong, p.gan, p.zhi), wit)
-					fd("ec:dayStem×pillar", dgS+"|"+p.gzs, js(p.ssg, p.ssz, p.dishi), wit)
+					if p.name == "day" {
+						// the day pillar's own ten-god is "day master" by definition, so it has its own table
+						fd("ec:dayPillar:self", p.gzs, js(p.ssg, p.ssz, p.dishi), wit)
+					} else {
+						fd("ec:dayStem×pillar", dgS+"|"+p.gzs, js(p.ssg, p.ssz, p.dishi), wit)
+					}
 				}
 			}
 			ec.SetSect(2)
